@@ -6,7 +6,7 @@ import conc
 import driver
 
 PROPERTIES_FILE = "Properties/Properties_C16.v"
-COQ_DEPS = ["Proofs/SrcLife_proofs.vo"]
+COQ_DEPS = ["Proofs/SrcLife_phase_proofs.vo", "Proofs/SrcLife_proofs.vo"]
 GEN_MODULES = ["Gen_srclife"]
 LEVEL = "proof"
 COQ_TIMEOUT = 1500
@@ -15,9 +15,10 @@ TRUSTED = [
     "_dispatch_source_wakeup, cancel, cancel_and_wait, event delivery); tied by (a) the generated rmw bodies of Gen_srclife "
     "(interface lemmas over every 32-bit word), (b) per-thread conformance of every recorded trace of dq_atomic_flags events "
     "+ callout marks against SrcLife.mon_step inside Coq, (c) the API-level oracle on the same stress runs",
-    "the theorems proved are per phase (every state, every kind, every oracle input) and the final-state characterisation; the "
-    "reachable-state invariants over all interleavings are NOT proved (theorems named _partial): the interleaving claims of C16 "
-    "rest on the stress oracle and trace conformance",
+    "the theorems are invariants of every reachable state of SrcLife.gstep (any number of threads, any interleaving of cancel / "
+    "cancel_and_wait / events / hang-up / release / activation / invoke phases); what they do not cover: that the lane layer "
+    "performs the invokes _dispatch_source_wakeup asks for (C01) and that the kernel delivers events (liveness)",
+    "finalize_unregistration's flag update and its futex wake are one model step; cancel_and_wait's try-lock is an oracle input",
     "drain lock of the source abstracted as one owner at a time; serial exclusion of the target queue assumed (C02)",
     "handlers are installed before activation and not replaced afterwards",
 ]
